@@ -34,6 +34,8 @@ FrameCellData(r) ==
   \A n \in 1..Len(r.filecd) : n <= Len(r.cbcd) =>
      \A key \in DOMAIN r.filecd[n] : key \in DOMAIN r.cbcd[n] /\ SeqNear(r.filecd[n][key], r.cbcd[n][key], r.tol)
 FrameCellKeys(r) == \A n \in 1..Len(r.filecd) : \A k \in 1..Len(r.keys) : r.keys[k] \in DOMAIN r.filecd[n]
+\* exactly the documented data sets are written: the default ones iff their flag is on, plus the user's callbacks
+FrameKeysExact(r) == \A n \in 1..Len(r.cdkeys) : ToSet(r.cdkeys[n]) = ToSet(r.expectcd) /\ ToSet(r.pdkeys[n]) = ToSet(r.expectpd)
 FrameCustomData(r) ==
   \A n \in 1..Len(r.filepd) : n <= Len(r.cbpd) =>
      \A key \in DOMAIN r.cbpd[n] : key \in DOMAIN r.filepd[n] /\ SeqEq(r.filepd[n][key], r.cbpd[n][key])
@@ -44,14 +46,14 @@ SaveReaction(r) == SeqEq(r.fw, r.fr)
 
 Clauses(r) == CASE r.kind = "roundtrip" -> {"PaddedPoints", "CutPoints", "SameCells", "SameCellType"}
                 [] r.kind = "shared" -> {"SharedPoints"}
-                [] r.kind = "frames" -> {"FrameCount", "FrameOrder", "FrameDisplacement", "FrameCellData", "FrameCellKeys", "FrameCustomData"}
+                [] r.kind = "frames" -> {"FrameCount", "FrameOrder", "FrameDisplacement", "FrameCellData", "FrameCellKeys", "FrameCustomData", "FrameKeysExact"}
                 [] r.kind = "save" -> {"SaveDisplacement", "SaveReaction"}
 Holds(c, r) == CASE c = "PaddedPoints" -> PaddedPoints(r) [] c = "CutPoints" -> CutPoints(r)
                  [] c = "SameCells" -> SameCells(r) [] c = "SameCellType" -> SameCellType(r)
                  [] c = "SharedPoints" -> SharedPoints(r)
                  [] c = "FrameCount" -> FrameCount(r) [] c = "FrameOrder" -> FrameOrder(r)
                  [] c = "FrameDisplacement" -> FrameDisplacement(r) [] c = "FrameCellData" -> FrameCellData(r)
-                 [] c = "FrameCellKeys" -> FrameCellKeys(r) [] c = "FrameCustomData" -> FrameCustomData(r)
+                 [] c = "FrameCellKeys" -> FrameCellKeys(r) [] c = "FrameCustomData" -> FrameCustomData(r) [] c = "FrameKeysExact" -> FrameKeysExact(r)
                  [] c = "SaveDisplacement" -> SaveDisplacement(r) [] c = "SaveReaction" -> SaveReaction(r)
 Applicable(r) == Clauses(r)
 Failing(r) == {c \in Clauses(r) : ~Holds(c, r)}
@@ -63,12 +65,15 @@ RefRT == [kind |-> "roundtrip", npoints |-> 2, dim |-> 2, pw |-> <<Z, One, One, 
           pc |-> <<Z, One, One, One>>, cw |-> <<0, 1>>, cr |-> <<0, 1>>, tw |-> "line", tr |-> "line", nblocks |-> 1]
 RefFR == [kind |-> "frames", expect |-> 2, times |-> <<0, 1>>, fileu |-> <<"aa", "bb">>, cbu |-> <<"aa", "bb">>, tol |-> 2,
           keys |-> <<"F">>, filecd |-> << [F |-> <<10, 20>>], [F |-> <<11, 21>>] >>, cbcd |-> << [F |-> <<10, 21>>], [F |-> <<11, 21>>] >>,
-          filepd |-> << [my |-> <<One>>], [my |-> <<Z>>] >>, cbpd |-> << [my |-> <<One>>], [my |-> <<Z>>] >>]
+          filepd |-> << [my |-> <<One>>], [my |-> <<Z>>] >>, cbpd |-> << [my |-> <<One>>], [my |-> <<Z>>] >>,
+          cdkeys |-> << <<"F">>, <<"F">> >>, pdkeys |-> << <<"Displacement", "my">>, <<"my", "Displacement">> >>, expectcd |-> <<"F">>, expectpd |-> <<"my", "Displacement">>]
+ASSUME Failing([RefFR EXCEPT !.expectcd = <<>>]) = {"FrameKeysExact"}
 ASSUME Failing(RefRT) = {} /\ Failing(RefFR) = {}
 ASSUME Failing([RefRT EXCEPT !.pr[3] = One]) = {"PaddedPoints"}
 ASSUME Failing([RefRT EXCEPT !.cr = <<1, 0>>]) = {"SameCells"}
 ASSUME Failing([RefRT EXCEPT !.tr = "quad"]) = {"SameCellType"}
-ASSUME Failing([RefFR EXCEPT !.fileu = <<"aa">>, !.times = <<0>>, !.filecd = << [F |-> <<10, 20>>] >>, !.filepd = << [my |-> <<One>>] >>]) = {"FrameCount"}
+ASSUME Failing([RefFR EXCEPT !.fileu = <<"aa">>, !.times = <<0>>, !.filecd = << [F |-> <<10, 20>>] >>, !.filepd = << [my |-> <<One>>] >>,
+                             !.cdkeys = << <<"F">> >>, !.pdkeys = << <<"Displacement", "my">> >>]) = {"FrameCount"}
 ASSUME Failing([RefFR EXCEPT !.fileu = <<"bb", "aa">>]) = {"FrameDisplacement"}
 ASSUME Failing([RefFR EXCEPT !.times = <<1, 2>>]) = {"FrameOrder"}
 ASSUME Failing([RefFR EXCEPT !.filecd[2] = [F |-> <<11, 30>>]]) = {"FrameCellData"}
